@@ -8,7 +8,7 @@ from harness.core import lean, sp
 
 SPLITS = ["train", "test", "holdout"]
 FORMATS = ["fb", "npz", "tfrec"]
-BAD_KINDS = ["shape", "rank", "scalar", "dtype_unsafe", "missing", "container", "extra", "foreign", "float_integral", "uint64_small"]
+BAD_KINDS = ["shape", "rank", "scalar", "dtype_unsafe", "missing", "container", "extra", "foreign", "float_integral", "uint64_small", "bytearray"]
 
 
 def md_value(code: int, style: int = 0):
@@ -112,6 +112,9 @@ def values_for(ex: int, kind: str, attrs):
         vals[target] = np.full(shape, float(ex if target == "a" else ex % 100), dtype=np.float64)
     elif kind == "uint64_small":
         vals[target] = np.full(shape, ex if target == "a" else ex % 100, dtype=np.uint64)
+    elif kind == "bytearray":
+        # numpy reads a bytearray as a uint8 vector: a rank violation for every fixed-size attribute
+        vals[target] = bytearray(b"ab" if shape != (2,) else b"abc")
     elif kind == "missing":
         del vals[target]
     elif kind == "container":
@@ -296,7 +299,7 @@ def must_reject(fmt: str, kind: str) -> bool | None:
     """What C18 demands: True = must be rejected, False = must be accepted, None = either."""
     if kind == "ok":
         return False
-    if kind in ("shape", "rank", "scalar", "container", "missing"):
+    if kind in ("shape", "rank", "scalar", "container", "missing", "bytearray"):
         return True
     if kind in ("dtype_unsafe", "foreign", "float_integral", "uint64_small"):
         return True if fmt == "fb" else None
